@@ -1457,7 +1457,7 @@ def mon_c18(api, rng, budget, variants):
 
 PROPS['C18'] = {
     'targets': ['props/C18.vo'],
-    'theorems': [('props.C18', n) for n in ['c18_constructor', 'c18_defaults_are_datasheet', 'c18_3wire']],
+    'theorems': [('props.C18', n) for n in ['c18_constructor', 'c18_state_after', 'c18_defaults_are_datasheet', 'c18_3wire']],
     'corr_gen': lambda api, rng, n: ctor_programs(api, rng, 40),
     'corr_n': (800, 800), 'monitor': mon_c18, 'monitor_n': (800, 4000), 'judge': check_ctor,
     'statement': 'hand model of the three constructors (tied by correspondence over all 256 id values x 3 constructors on every run): a driver is '
